@@ -15,7 +15,7 @@ CHECKS = {
  "C01": ("exploration",
          "exhaustive short token strings + grammar-based and mutation-based generation (proptest) + raw bytes + parameterised pathological inputs, every entry point x target family x option vectors per case on an 8 MiB-stack thread; crash / hang attribution through a per-case progress file and re-execution in fresh processes",
          "All strings of <= 3 tokens (thorough 4) over a 28-token indicator alphabet, grammar documents and 1-3 byte/token mutations of them, random bytes, BOM-prefixed (UTF-8/16/32) and truncated multi-byte input, and pathological nests / widths / document counts at and beyond the default budget limits; each case drives ~25 target types through every str / slice / multi-document / reader (3 chunkings) / iterator / closure / budget / validating entry point under 7 option vectors and renders every returned error 9 ways. Oracle: no panic, no process death (stack overflow, abort), iterator <= len+2 items, reader not polled > 10000 times after end of input. Exploration; termination is checked through work bounds and a watchdog, not proved.",
-         "two open findings in the parser dependency (reader hang on a '%' line at end of input; debug assertion on reader input ending abruptly inside a block scalar) are excluded by skipping reader entry points for such input; the harness builds the library with overflow checks and debug assertions on",
+         "two open findings in the parser dependency (reader hang on a '%' line at end of input; debug assertion on reader input ending abruptly inside a block scalar) are excluded by skipping reader entry points for such input; the pathological inputs are also run through an unoptimized build of the check, where nests deeper than 500 levels are excluded by the open finding c01-unoptimized-build-stack; the harness builds the library with overflow checks and debug assertions on",
          "DESIGN.md section 3 C01"),
  "C16": ("exploration",
          "property-based testing with renderer ground truth: documents rendered by the harness with recorded line / column / char / byte positions of every node; a generic Spanned tree and provoked type errors are compared with them; a consistency predicate re-derives every reported Location from the text",
@@ -109,7 +109,7 @@ CHECKS = {
          "DESIGN.md section 3 C12"),
 }
 
-FUZZ = {"C01", "C02", "C03", "C04", "C05", "C06", "C07", "C09", "C12", "C13", "C16", "C17", "C19", "C20"}
+FUZZ = {"C%02d" % i for i in range(1, 21)}
 
 NOT_BUILT_REASON = "check not built yet in this round (planned: see DESIGN.md section 3); not claimed"
 
